@@ -345,6 +345,9 @@ func (h *H) genProtoTag(ft *Ty, used map[int]bool, pos int) string {
 // nilPtrInCollection: a nil pointer stored as a slice element or map value (known finding: it is written as a bare
 // tag, which corrupts the rest of the message; the outcome then depends on Go's random map order).
 func nilPtrInCollection(v reflect.Value) bool {
+	if zooByRType[v.Type()] != nil {
+		return false // a zoo leaf (protomsg.go) is opaque
+	}
 	switch v.Kind() {
 	case reflect.Ptr:
 		return !v.IsNil() && nilPtrInCollection(v.Elem())
@@ -402,6 +405,9 @@ func (h *H) genProtoCase1() (*Ty, string) {
 }
 
 func hasMultiMap(t *Ty, v reflect.Value) bool {
+	if zooOf(t) != nil {
+		return false // a zoo leaf (protomsg.go) is opaque: ZMap writes its entries sorted
+	}
 	switch v.Kind() {
 	case reflect.Map:
 		if v.Len() > 1 {
@@ -524,6 +530,8 @@ func runC03(h *H) {
 	h.protoRecycle()
 	// messages with fields of defined (named) types
 	h.protoNamedC03()
+	// fields / elements / map values / top-level values of declared Message and custom types (protomsg.go)
+	h.protoMsgC03()
 	h.ptRetainCases("proto.retain") // call histories: results retained across further calls (ptretain.go)
 }
 
@@ -791,11 +799,29 @@ func runC12(h *H) {
 					h.Do("proto.decode", ts, hx(e), want)
 					h.Count("override_cases", 1)
 				}
+				if decoy.wt == 1 || decoy.wt == 5 { // fixed-width scalars: any other value first
+					e := append(encRec(decoy), b...)
+					h.Do("proto.decode", ts, hx(e), want)
+					h.Count("override_cases", 1)
+				}
+			}
+			// length-delimited scalars (string, bytes — not messages, repeated fields, maps or byte arrays, whose later
+			// occurrences merge or append): an earlier occurrence that is LONGER, shorter or empty must leave no trace
+			if ft != nil && r.wt == 2 && ft.K != "sl" && ft.K != "map" && ft.K != "arr" && (baseOf(ft).K == "str" || baseOf(ft).K == "bytes") {
+				for _, dv := range [][]byte{append(append([]byte{}, r.val...), []byte("-longer-decoy")...), []byte("d"), {}} {
+					decoy := r
+					decoy.val = dv
+					e := append(encRec(decoy), b...)
+					h.Do("proto.decode", ts, hx(e), want)
+					h.Count("override_cases", 1)
+				}
 			}
 		}
 	}
 	// messages with fields of defined (named) types
 	h.protoNamedC12()
+	// declared Message and custom types (protomsg.go)
+	h.protoMsgC12()
 }
 
 // ---- C16: MarshalTo for every buffer length -------------------------------------------------------
@@ -893,6 +919,8 @@ func runC16(h *H) {
 			h.Do("proto.marshalto", "named RawMessage bytes", "s "+raw, strconv.Itoa(n))
 		}
 	}
+	// declared Message and custom types (protomsg.go)
+	h.protoMsgC16()
 }
 
 // ---- C07: totality, unknown fields, Scan, allocation ----------------------------------------------
@@ -1174,6 +1202,7 @@ func runC07(h *H) {
 	h.protoDeep()
 	// allocation clause: measured allocation against the model's count and the proved bound (protoalloc.go)
 	h.protoAllocCases()
+	runC09HistErr(h, "C07") // c09histerr.go
 }
 
 // zeroLeaves copies v with every scalar leaf set to its zero value; containers keep their shape (map keys, lengths,
